@@ -1050,6 +1050,8 @@ class Interp:
                 return Int(v.t, v.w, int_type(ty)[1])
             if kind == "Subtype":
                 return v                        # same value at a subtype (opaque types revealed, lifetimes)
+            if kind == "Transmute" and isinstance(v, Ref) and re.match(r"\*(const|mut) ", ty.strip()):
+                return v                        # NonNull<T> -> *const T (how rustc lowers `*boxed`): the same pointer
             if kind.startswith("PointerCoercion") or kind in ("PtrToPtr",):
                 if "Unsize" in kind and re.match(r"&(mut )?\[", ty.strip()) and isinstance(v, Ref):
                     tgt = v.cell.v
